@@ -43,7 +43,7 @@ def patches(case):
 
 # ----------------------------------------------------------------------------- alphabet
 
-MUTATORS = ["adapt", "baseline", "bounds", "bg_adapt", "bg_adapt_add", "sys_adapt", "sys_adapt_add", "system", "targets", "fit_registered"]
+MUTATORS = ["adapt", "baseline", "bounds", "bg_adapt", "bg_adapt_add", "sys_adapt", "sys_adapt_add", "system", "targets", "targets_now", "fit_registered"]
 QUERIES = ["q_capture", "q_sysrel", "q_inhull", "q_inhull_norm", "q_fit", "q_l1scale"]
 
 
@@ -57,6 +57,7 @@ class Ref:
     def __init__(self, F, D, K, base, sources, lb, ub):
         self.F, self.D, self.K, self.base, self.sources, self.lb, self.ub = F, D, K, base, sources, lb, ub
         self.targets = None
+        self.fitted = False
 
     def A(self):
         Src = np.asarray(self.sources)
@@ -140,11 +141,16 @@ def apply_step(M, est, ref, step, idx, goals):
             M.assume(v > 0)
         s1, s2 = _copy(B), _copy(W)
         est.register_targets(B, W); ref.targets = (B, W); untouched("targets", B, s1); untouched("weights", W, s2)
+    elif step == "targets_now":
+        # registering targets WITHOUT weights resets the per-sample weights to the estimator's per-receptor weights
+        B = fresh("nB", (2, NF), sample=lambda r, s: r.uniform(0.5, 3.0, size=s)); s1 = _copy(B)
+        est.register_targets(B); ref.targets = (B, None); untouched("targets", B, s1)
     elif step == "fit_registered":
         if ref.targets is None:
             B = fresh("tB", (2, NF), sample=lambda r, s: r.uniform(0.5, 3.0, size=s)); est.register_targets(B); ref.targets = (B, None)
         symcp.reset()
         est.fit()
+        ref.fitted = True  # est.B now holds the fitted capture (by design of fit() on registered targets)
         # registered values are unchanged by fitting the registered targets (est.B becomes the prediction; the registered target_B stays)
     elif step.startswith("q_"):
         run_query(M, est, ref, step, idx, goals, tag)
@@ -262,11 +268,31 @@ def history_case(M, steps):
     Kr = np.array(ref.K, dtype=object if M.symbolic else float); br = np.array(ref.base, dtype=object if M.symbolic else float)
     fresh = ReceptorEstimator(F, domain=D, K=Kr, baseline=br)
     fresh.register_system(ref.sources, lb=np.array(ref.lb, dtype=object if M.symbolic else float), ub=np.array(ref.ub, dtype=object if M.symbolic else float))
-    if ref.targets is not None and ref.targets[1] is not None:
-        fresh.register_targets(ref.targets[0], ref.targets[1])
+    if ref.targets is not None:
+        if ref.targets[1] is not None:
+            fresh.register_targets(ref.targets[0], ref.targets[1])
+        else:
+            fresh.register_targets(ref.targets[0])
     probes = (M.real("xp", (2, nsrc), sample=lambda r, s: r.uniform(0.0, 1.5, size=s)), M.real("sp", (2, ND), sample=lambda r, s: r.uniform(0.0, 1.0, size=s)),
               M.real("Bp", (2, NF), sample=lambda r, s: r.uniform(0.5, 3.0, size=s)), M.real("xcp", (nsrc,), sample=lambda r, s: r.uniform(0.2, 1.0, size=s)))
     o1 = observables(M, est, probes); o2 = observables(M, fresh, probes)
+    if ref.targets is not None and not ref.fitted and M.symbolic:
+        # queries without explicit targets use the REGISTERED targets: what in_hull() hands to the membership oracle must be those
+        for nm, e_ in (("o1", est), ("o2", fresh)):
+            stubs.qhull_reset()
+            e_.in_hull()
+            c = stubs.QHULL_CALLS[-1]
+            (o1 if nm == "o1" else o2)["membership of the registered targets: targets"] = np.asarray(c["B"])
+        symcp.reset(); est.fit()  # (on a copy of the state would be cleaner; this is the last use of est)
+        rec = symcp.SOLVES[0]; var = rec["problem"].variables()[0]
+        o1["fit of the registered targets: objective at the probe competitor"] = np.array([rec["problem"].at({var: np.asarray(probes[3], dtype=object).view(symnp.SymArray)}, rec["params"])[0]], dtype=object)
+        symcp.reset(); fresh.fit()
+        rec = symcp.SOLVES[0]; var = rec["problem"].variables()[0]
+        o2["fit of the registered targets: objective at the probe competitor"] = np.array([rec["problem"].at({var: np.asarray(probes[3], dtype=object).view(symnp.SymArray)}, rec["params"])[0]], dtype=object)
+    elif ref.targets is not None and not ref.fitted:
+        o1["in_hull() of the registered targets"] = np.asarray(est.in_hull()); o2["in_hull() of the registered targets"] = np.asarray(fresh.in_hull())
+        est.fit(); fresh.fit()
+        o1["fit: predicted capture of the registered targets"] = np.asarray(est.B); o2["fit: predicted capture of the registered targets"] = np.asarray(fresh.B)
     goals["same observables are available"] = sorted(o1) == sorted(o2)
     for k in sorted(set(o1) & set(o2)):
         a, b = o1[k], o2[k]
@@ -312,9 +338,49 @@ def distscale_purity_case(M, zero_row):
     return {"gamut_dist_scaling: caller array not modified": _same(M, B, snap)}
 
 
+def query_purity_case(M, query):
+    """a query with explicit arguments must not change what later queries WITHOUT arguments (registered targets) see"""
+    from dreye.api.estimator import ReceptorEstimator
+    cF = np.array([[1, 2, 1], [0.5, 1, 3]]); cD = np.array([0.0, 1.0, 2.5]); cS = np.array([[1, 0.5, 0.25], [0.25, 1, 2]])
+    K0 = M.real("K", (NF,), sample=lambda r, s: r.uniform(0.5, 2.0, size=s)); b0 = M.real("base", (NF,), sample=lambda r, s: r.uniform(0.1, 0.5, size=s))
+    for j in range(NF):
+        M.assume(K0[j] > 0); M.assume(b0[j] > 0)
+    est = ReceptorEstimator(symnp.const(cF) if M.symbolic else cF, domain=(symnp.const(cD) if M.symbolic else cD), K=K0, baseline=b0)
+    est.register_system(symnp.const(cS) if M.symbolic else cS, lb=np.zeros(2), ub=np.ones(2) * 2)
+    T = M.real("T", (2, NF), sample=lambda r, s: r.uniform(0.5, 3.0, size=s) * np.array([[1.0, 1.0], [9.0, 0.1]]))
+    Wt = M.real("Wt", (2, NF), sample=lambda r, s: r.uniform(0.5, 2.0, size=s))
+    for v in np.asarray(Wt).ravel():
+        M.assume(v > 0)
+    Bq = M.real("Bq", (2, NF), sample=lambda r, s: r.uniform(0.5, 2.0, size=s))
+    est.register_targets(T, Wt)
+
+    def view():
+        if M.symbolic:
+            stubs.qhull_reset(); est.in_hull()
+            return np.asarray(stubs.QHULL_CALLS[-1]["B"])
+        return np.asarray(est.in_hull())
+    before = view()
+    regB = np.array(est.B, dtype=object if M.symbolic else float, copy=True); regW = np.array(est.W, dtype=object if M.symbolic else float, copy=True)
+    symcp.reset()
+    if query == "fit":
+        est.fit(Bq)
+    elif query == "fit_poisson":
+        est.fit(np.abs(Bq) if not M.symbolic else Bq, model="poisson") if not M.symbolic else est.fit(Bq, model="gaussian", batch_size=2)
+    elif query == "in_hull":
+        stubs.qhull_reset(); est.in_hull(Bq); est.in_hull(Bq, normalized=True)
+    elif query == "l1scale":
+        est.gamut_l1_scaling(Bq)
+    after = view()
+    return {"in_hull() of the registered targets is unchanged by the query": _same(M, after, before),
+            "the registered targets and weights are unchanged by the query": M.conj(_same(M, est.B, regB), _same(M, est.W, regW)),
+            "registered_targets stays as it was": bool(est.registered_targets)}
+
+
 def cases(tier, seed):
     C = []
     big = tier == "thorough"
+    for q in ("fit", "fit_poisson", "in_hull", "l1scale"):
+        C.append(dict(name=f"query purity w.r.t. registered targets: {q}", body="query_purity_case", kwargs=dict(query=q), opts=dict(timeout_ms=30000, n_validate=2, max_paths=64)))
     for z in (True, False):
         C.append(dict(name=f"purity of gamut_dist_scaling (zero row: {z})", body="distscale_purity_case", kwargs=dict(zero_row=z), opts=dict(timeout_ms=30000, n_validate=4, max_paths=2000, skip_sym=True, algebraic=True)))  # every branch of this function divides by symbolic chromaticity
     # sums: path exploration does not terminate in minutes; the clause is exercised in exact rational arithmetic on sampled targets only (stated)
@@ -323,10 +389,11 @@ def cases(tier, seed):
         hist = [(a,) for a in alpha] + list(itertools.product(alpha, repeat=2))
     else:
         # quick: all single steps, every (mutator, mutator) pair, and every query sandwiched with every mutator in both orders
-        red = ["adapt", "baseline", "bounds", "bg_adapt", "sys_adapt_add", "system", "targets", "fit_registered"]
+        red = ["adapt", "baseline", "bounds", "bg_adapt", "sys_adapt_add", "system", "targets", "targets_now", "fit_registered"]
         hist = [(a,) for a in alpha] + list(itertools.product(red, repeat=2)) + [("bg_adapt_add", "sys_adapt"), ("sys_adapt", "bg_adapt_add")] + \
                [(q, m_) for q in QUERIES for m_ in ("adapt", "bg_adapt", "sys_adapt_add", "bounds", "system")] + \
-               [(m_, q) for q in QUERIES for m_ in ("baseline", "sys_adapt", "targets")]
+               [(m_, q) for q in QUERIES for m_ in ("baseline", "sys_adapt", "targets")] + \
+               [("targets", "q_fit", "adapt"), ("targets", "q_inhull"), ("targets", "targets_now", "q_fit")]
     if big:
         small = ["adapt", "bg_adapt_add", "sys_adapt", "system", "q_inhull_norm", "q_fit"]
         hist += list(itertools.product(small, repeat=3))
